@@ -168,7 +168,7 @@ impl Prop for C19 {
     }
     fn rule(&self) -> String {
         "Placed gridded libraries from gen/tetgen.rs: 1-6 cells forming a DAG in straight/reversed/shuffled listing order, stepped outlines (1-4 steps), 0-4 metals, named instances at absolute locations with all four reflection combinations, assignments and cuts at arbitrary track crossings, optional port-less abstracts. \
-         Oracle 1: ProtoLibImporter::import(ProtoExporter::export(lib)) equals lib on library name and per cell (by name) outline steps, metals, ordered instances (name, target, loc, both reflections), assignments, cuts, abstract outline; the exported message lists dependencies first. \
+         Oracle 1: ProtoLibImporter::import(ProtoExporter::export(lib)) equals lib on library name and per cell (by name) outline steps, metals, ordered instances (name, target, loc, both reflections), assignments, cuts, abstract outline; the exported message lists dependencies first; re-exporting the imported library reproduces the first message; export works in a second thread while read guards are held on every cell. \
          Oracle 2 (fault enumeration on the message): for every cell/instance/assignment/cut of every valid message, each mandatory part is removed in turn (outline, loc, place, cell, reference target, at, track, cross), and relative places, undefined/external/later-defined cells, malformed outlines are substituted: import must be Err, never Ok and never a panic. \
          distinct_nontrivial = distinct libraries (summary hash) with an instance, assignment or cut, plus distinct mutant messages."
             .into()
